@@ -226,10 +226,14 @@ fn sync_stream(rep: &Report, bound: u32, base: usize, max: usize, data_len: usiz
             let mut e = env.borrow_mut();
             e.allow_zero = false;
         }
-        let inner = Both {
+        let mut inner = Both {
             r: ScriptReader::new(env, &data),
             w: ScriptWriter::new(env),
         };
+        // how many sink bytes the inner stream had received when ITS flush last succeeded (an inner
+        // stream may stage what it is given until it is flushed)
+        let inner_flushed = Rc::new(Cell::new(0usize));
+        inner.w.flushed_upto = Some(inner_flushed.clone());
         let mut s = SyncStream::with_limits(base, max, inner);
         let mut delivered: Vec<u8> = Vec::new(); // bytes handed to the caller
         let mut accepted: Vec<u8> = Vec::new(); // bytes the caller was told were written
@@ -299,8 +303,10 @@ fn sync_stream(rep: &Report, bound: u32, base: usize, max: usize, data_len: usiz
                     match r {
                         Ok(0) => {
                             // genuine EOF only: the scripted reader answers 0 only when exhausted
-                            if s.get_ref().r.pos != data_len && !matches!(env.borrow().reads.last(), Some((0, _))) {
-                                return fail("false-eof", "fill_read_buf returned 0 before the inner stream ended");
+                            if s.get_ref().r.pos != data_len {
+                                let offered_nothing = matches!(env.borrow().reads.last(), Some((0, _)));
+                                let cause = if offered_nothing { "inner-read-offered-a-zero-capacity-buffer" } else { "other" };
+                                return fail(format!("false-eof:{cause}"), format!("fill_read_buf returned 0 ({buffered} bytes buffered, limit {max}, base {base}) before the inner stream ended: end of file is latched and the rest of the stream is never delivered"));
                             }
                             if s.get_ref().r.pos == data_len {
                                 eof_seen = true;
@@ -348,6 +354,13 @@ fn sync_stream(rep: &Report, bound: u32, base: usize, max: usize, data_len: usiz
                             if s.get_ref().w.sink != accepted {
                                 let cause = if flush_failed { "after-failed-flush" } else { "no-failure" };
                                 return fail(format!("sink-differs-after-flush:{cause}"), format!("sink {:02x?}, accepted {accepted:02x?}", s.get_ref().w.sink));
+                            }
+                            if inner_flushed.get() != accepted.len() {
+                                let cause = if flush_failed { "after-failed-flush" } else { "no-failure" };
+                                return fail(
+                                    format!("flush-ok-without-inner-flush:{cause}"),
+                                    format!("flush_write_buf returned Ok, but the inner stream's last successful flush covered {} of the {} bytes handed to it: an inner stream that stages data until flushed never delivers the rest", inner_flushed.get(), accepted.len()),
+                                );
                             }
                         }
                         Err(_) => flush_failed = true,
@@ -580,10 +593,12 @@ fn async_write(rep: &Report, bound: u32, base: usize, depth: usize) {
         }
         let gate = Rc::new(Gate::default());
         gate.open.set(true);
-        let inner = GWriter {
+        let mut inner = GWriter {
             w: ScriptWriter::new(env),
             gate: gate.clone(),
         };
+        let inner_flushed = Rc::new(Cell::new(0usize));
+        inner.w.flushed_upto = Some(inner_flushed.clone());
         let mut s = Box::pin(AsyncWriteStream::with_capacity(base, inner));
         let mut e_write = Entry::new("poll_write");
         let mut e_flush = Entry::new("poll_flush");
@@ -645,6 +660,13 @@ fn async_write(rep: &Report, bound: u32, base: usize, depth: usize) {
                             if s.get_ref().w.sink != accepted {
                                 let cause = if failed { "after-failed-call" } else { "no-failure" };
                                 return fail(format!("sink-differs-after-flush:{cause}"), format!("sink {:02x?}, accepted {accepted:02x?}", s.get_ref().w.sink));
+                            }
+                            if inner_flushed.get() != accepted.len() {
+                                let cause = if failed { "after-failed-call" } else { "no-failure" };
+                                return fail(
+                                    format!("flush-ok-without-inner-flush:{cause}"),
+                                    format!("poll_flush returned Ready(Ok), but the inner stream's last successful flush covered {} of the {} bytes handed to it", inner_flushed.get(), accepted.len()),
+                                );
                             }
                         }
                         Poll::Ready(Err(_)) => {
@@ -718,7 +740,9 @@ pub fn run(args: Args) {
     let depth = t.pick(4, 5);
     let mut items: Vec<Box<dyn Fn(&Report) + Send + Sync>> = Vec::new();
     for base in [1usize, 2, 4] {
-        for max in [2usize, 4, 8] {
+        // limits that are and that are not a multiple of the base capacity (the last growth step then
+        // would pass the limit)
+        for max in [2usize, 3, 4, 6, 8] {
             if max < base {
                 continue;
             }
@@ -732,7 +756,7 @@ pub fn run(args: Args) {
         items.push(Box::new(move |rep| async_write(rep, bound + 1, base, depth)));
     }
     vcore::par_for_each(&items, |_, f| f(&rep));
-    rep.extra("bounds", json!({"program_depth": depth, "max_deviations_sync": bound, "max_deviations_async": bound + 1, "base_capacities": [1,2,4], "limits": [2,4,8]}));
+    rep.extra("bounds", json!({"program_depth": depth, "max_deviations_sync": bound, "max_deviations_async": bound + 1, "base_capacities": [1,2,4], "limits": [2,3,4,6,8]}));
     rep.rule("every caller program up to program_depth over the entry points (read/fill_buf+consume/read_buf_uninit/write/fill_read_buf/flush_write_buf; poll_read/poll_read_uninit/poll_fill_buf/poll_write/poll_flush/poll_close/open-gate, fresh waker per poll) x every placement of <= max_deviations inner-stream deviations (short, Interrupted, error, park-until-gate) x capacities and limits");
     rep.assume("inner streams answer only when called (no background progress); a parked inner call is released only by the explicit open-gate step");
     rep.finish();
